@@ -447,6 +447,121 @@ def random_runs(chk, judge, nthreads, n, deadline, stats, label):
     judge.flush()
 
 
+# ------------------------------------------------------------------ two independent lock objects
+class TwoLockRun:
+    """Two RWLockWrite objects A and B in one process (SyncedEnforcer creates one per enforcer).  Thread 0 takes B INSIDE its
+    section of A; the other threads take A or B alone.  Each lock's guarantees are its own: exclusion is judged per lock on
+    the marks the threads set right after an acquire returned and clear right before the release starts (so a mark window is
+    inside the real holding window: no false alarm), and every schedule must run to the end."""
+
+    def __init__(self, nest, others, step_timeout=30.0):
+        import casbin.util.rwlock as rwmod
+        self.nest, self.others = tuple(nest), tuple(tuple(o) for o in others)
+        with sched.patched(rwmod):
+            self.locks = {"A": rwmod.RWLockWrite(), "B": rwmod.RWLockWrite()}
+        self.ctl = sched.Controller(step_timeout=step_timeout)
+        self.marks = {}
+        self.stage = [0] * (1 + len(self.others))
+        self.bad = None
+
+    def gen(self, name, k):
+        lock = self.locks[name]
+        return lock.gen_rlock() if k == "r" else lock.gen_wlock()
+
+    def mark(self, tid, name, k):
+        for (t2, n2), k2 in self.marks.items():
+            if n2 == name and t2 != tid and (k == "w" or k2 == "w") and self.bad is None:
+                self.bad = dict(lock=name, entered=[tid, k], inside=[t2, k2], after_steps=len(self.ctl.schedule))
+        self.marks[(tid, name)] = k
+        self.stage[tid] += 1
+
+    def unmark(self, tid, name):
+        self.marks.pop((tid, name), None)
+        self.stage[tid] += 1
+
+    def bodies(self):
+        kA, kB = self.nest
+
+        def nested(tid):
+            with self.gen("A", kA):
+                self.mark(tid, "A", kA)
+                with self.gen("B", kB):
+                    self.mark(tid, "B", kB)
+                    sched.yield_point()          # the thread stays inside while the others run
+                    self.unmark(tid, "B")
+                self.unmark(tid, "A")
+
+        def alone(name, k):
+            def run(tid):
+                with self.gen(name, k):
+                    self.mark(tid, name, k)
+                    sched.yield_point()
+                    self.unmark(tid, name)
+            return run
+        return [nested] + [alone(n, k) for n, k in self.others]
+
+    def key(self, ctl):
+        f = lambda l: [l._active_readers, l._waiting_writers, bool(l._writer_active), list(l._cond.waiter_tids())]
+        try:
+            fields = [f(self.locks["A"]), f(self.locks["B"])]
+        except Exception as e:  # noqa: BLE001
+            fields = repr(e)
+        return json.dumps([fields, self.stage, sorted([t, n, k] for (t, n), k in self.marks.items()),
+                           [[ctl.state(i), ctl.why(i)] for i in range(len(self.stage))], ctl.enabled()])
+
+    def run(self, choose):
+        res = self.ctl.run(self.bodies(), choose)
+        res.bad = self.bad
+        return res
+
+
+def two_locks_cases():
+    for nest in itertools.product("rw", repeat=2):
+        for k1 in "rw":
+            yield nest, (("B", k1),)
+            yield nest, (("B", k1), ("A", "w"))
+        yield nest, (("B", "w"), ("B", "r"))
+
+
+def two_locks_verdict(res):
+    if res.bad is not None:
+        return ("exclusion (two lock objects)", dict(violation=res.bad), "a writer inside a lock is alone in THAT lock, whatever "
+                "other lock objects the threads hold")
+    if res.status != "ok" and res.status != "stopped":
+        return ("acquire/release did not return (two lock objects)", dict(status=res.status, errors=res.errors),
+                "with a consistent lock order every acquire returns")
+    return None
+
+
+def two_locks_stratum(chk, deadline, stats):
+    runs = states = 0
+    complete = True
+    for nest, others in two_locks_cases():
+        if time.time() > deadline or chk.spec_failures:
+            complete = False
+            break
+        holder = {}
+
+        def run_once(choose, nest=nest, others=others, holder=holder):
+            holder["r"] = TwoLockRun(nest, others)
+            return holder["r"].run(choose)
+
+        def on_run(res, nest=nest, others=others):
+            v = two_locks_verdict(res)
+            if v and not any(f["case"].get("stratum") == "two-locks" for f in chk.spec_failures):
+                chk.spec_fail(dict(stratum="two-locks", nest=list(nest), others=[list(o) for o in others], schedule=list(res.schedule)),
+                              v[1], v[2], v[0])
+                return False
+            return True
+
+        st = sched.explore(run_once, key=lambda ctl, holder=holder: holder["r"].key(ctl), deadline=deadline, on_run=on_run)
+        runs += st.runs
+        states += st.states
+        complete = complete and st.complete
+        chk.count(("two-locks", nest, others))
+    stats["two_lock_objects"] = dict(cases=len(list(two_locks_cases())), runs=runs, states=states, complete=complete)
+
+
 # ------------------------------------------------------------------ search on the model (extracted interpreter)
 def ghost_step(c, tid, c2, ghost):
     """history the worded preference depends on, along one model transition: ghost = ((reader, (writers that
@@ -547,6 +662,17 @@ def search_and_replay(chk, judge, mix_list, deadline, stats, label):
 def replay(chk):
     rec = json.load(open(chk.replay_file))
     c = rec.get("case") or {}
+    if c.get("stratum") == "two-locks":
+        res = TwoLockRun(c["nest"], c["others"]).run(sched.follow(list(c["schedule"]), then=lambda ctl, en: None))
+        v = two_locks_verdict(res)
+        print(f"replay: two lock objects, thread 0 takes B({c['nest'][1]}) inside A({c['nest'][0]}), others {c['others']}; "
+              f"schedule={res.schedule} status={res.status}")
+        if v:
+            print(f"   violated: {v[0]}: {json.dumps(v[1])[:300]}")
+            print(f"VIOLATION property={chk.prop} replay={chk.replay_file}")
+            sys.exit(1)
+        print("replay passes: the implementation satisfies the spec on this schedule")
+        sys.exit(0)
     if "schedule" not in c or "progs" not in c:
         print("replay file names a broken theorem/correspondence, not an input:", json.dumps(rec.get("broken"))[:800])
         sys.exit(1)
@@ -590,6 +716,7 @@ def run(chk, tier, t_budget, escalate=False):
                 explore_impl(chk, judge, m4, True, deadline, stats, "escalated_statecover_4threads")
     else:
         with sched.pinned_cpu():
+            two_locks_stratum(chk, t0 + t_budget * 0.15, stats)
             readers_share_probe(chk, judge, stats)
             # A: EVERY interleaving of the small mixes
             explore_impl(chk, judge, m1 + m2 + one_round(m3), False, deadline, stats, "full_le2threads_and_3x1")
